@@ -592,6 +592,8 @@ class Ctx(object):
             samples=self.samples or ["(no generated cases in this run)"],
             distributions=self.dist,
             model_vs_impl_mismatches=len(self.mismatches),
+            mismatch_samples=[w for w, _ in self.mismatches[:4]],
+            impl_failure_keys=sorted(set(str(k) for k, _, _ in self.impl_violations)),
             impl_property_failures=len(self.impl_violations),
             known_findings_hit={k: v[1] for k, v in self.known_hit.items()},
         )
